@@ -13,7 +13,8 @@ preorder with ties between different values).
 
 Each call line runs `Model.Edit.lcsFunc?` / `Model.Lis.lisFunc` / `lndsFunc` (the functions the
 theorems are about) and judges the implementation's result against `Spec.Subseq`: a (common)
-subsequence, increasing as required, of the reference optimal length, input unchanged.
+subsequence, increasing as required, of the reference optimal length, input unchanged; for `lcsf k`
+also the returned VALUES (they must come, in order, from the argument `Subseq.lcsSource` names).
 -/
 namespace MdsVerif.Drv.C12
 open MdsVerif.Drv MdsVerif.Model.Edit MdsVerif.Model.Lis MdsVerif.Spec
@@ -24,14 +25,21 @@ def resField (obs : String) : List Int :=
 
 def isBadRun (impl : String) : Bool := impl.startsWith "panic" || impl == "hang"
 
+/-- `k = 0`: plain `==`; `k > 0`: the custom equality `a % k = b % k` of `lcsf k`.  The result is
+judged as VALUES and as KEYS: element for element it must be a subsequence of the argument the
+elements are taken from (`Subseq.lcsSource`: the shorter one, the first if equally long), and its
+keys must be a common subsequence of the two key sequences of the reference optimal length. -/
 def specLcsOn (lhs rhs : List Int) (k : Nat) (impl : String) : String :=
   if isBadRun impl then "bad LCS must return" else
   let key : Int → Int := fun v => if k = 0 then v else v % (k : Int)
-  let res := (resField impl).map key
+  let vals := resField impl
+  let res := vals.map key
   let a := lhs.map key
   let b := rhs.map key
   let opt := Subseq.lcsLenDP a b
   firstBad [
+    (vals.isSublist (Subseq.lcsSource lhs rhs),
+      "the returned elements are not, in order, elements of the shorter argument (of the first if equally long)"),
     (res.isSublist a && res.isSublist b, "not a common subsequence"),
     (res.length == opt, s!"not optimal: {res.length} vs {opt}"),
     ((afterKey impl "mod=").startsWith "F", "input modified")]
